@@ -1,18 +1,22 @@
 #!/bin/sh
 # Re-run the checks on every stored behaviour-preserving refactoring
 # (refactors/<name>/): each must stay QUIET.  Image-inspector refactorings are
-# run against all six image checks.  Usage: tools/reeval_refactors.sh [-P n]
+# run against all six image checks.
+# Usage: tools/reeval_refactors.sh [-P n] [name-fragment]
 cd "$(dirname "$0")/.."
-one() {
-    name=$1; pid=$(echo $name | cut -d- -f1)
+if [ "$1" = "--one" ]; then
+    name=$2; pid=$(echo $name | cut -d- -f1)
+    if grep -q obsolete_since refactors/$name/meta.json; then
+        echo "$name OBSOLETE"; exit 0
+    fi
     case $pid in
         C01|C02|C03|C05|C06|C07)
             also=$(echo "C01 C02 C03 C05 C06 C07" | tr ' ' '\n' | grep -v $pid | tr '\n' ',' | sed 's/,$//')
-            tools/ingest_refactor.py $PWD/refactors/$name $name --also=$also ;;
-        *) tools/ingest_refactor.py $PWD/refactors/$name $name ;;
+            tools/ingest_refactor.py $PWD/refactors/$name $name --also=$also 2>&1 | grep -v "^WARNING" ;;
+        *) tools/ingest_refactor.py $PWD/refactors/$name $name 2>&1 | grep -v "^WARNING" ;;
     esac
-}
-for n in $(ls refactors); do
-    if grep -q obsolete_since refactors/$n/meta.json; then echo "$n OBSOLETE"; continue; fi
-    one $n 2>&1 | grep -v "^WARNING"
-done
+    exit 0
+fi
+par=1
+if [ "$1" = "-P" ]; then par=$2; shift 2; fi
+ls refactors | grep -- "${1:-}" | xargs -P $par -n 1 "$0" --one
